@@ -1,5 +1,5 @@
 (* C06 — Partition isolation.  Only property statements here; each closed with [exact]. *)
-From Asherah Require Import Base.Str Envelope.Partition Envelope.PartitionProofs.
+From Asherah Require Import Base.Str Envelope.Partition Envelope.PartitionProofs Envelope.Session Envelope.Local.
 
 (* Full statement for sessions without a region suffix: for ALL strings p, q, svc, prod
    (underscores, embedded service/product names, empty pieces included), the guard that
@@ -43,3 +43,11 @@ Print Assumptions C06_suffixed_collision_family.
 Theorem C06_empty_partition_refused : get_session_ok [] = false.
 Proof. exact get_session_refuses_empty. Qed.
 Print Assumptions C06_empty_partition_refused.
+
+(* at the API of the envelope model: a record naming a key id the guard rejects is refused before any cache,
+   metastore or KMS is touched - whatever the cache state and the rest of the record *)
+Theorem C06_foreign_refused_at_api : forall e r key pm w,
+  d_key r = Some key -> e_parent key = Some pm -> is_valid_ik_id (en_part e) (km_id pm) = false ->
+  decrypt_data_row_record e r w = (inl ErrInvalid, w).
+Proof. exact decrypt_foreign_refused. Qed.
+Print Assumptions C06_foreign_refused_at_api.
